@@ -107,4 +107,54 @@ example : sinkBytes (run (cleanWorld auxCfg) (Rewriter.new (cleanWorld auxCfg) (
   rw [← Full_real_eq_clean_run_of_no_handler auxCfg {} sampleChunks (by decide +kernel)]
   decide +kernel
 
+/-! ### C11 at `end` -/
+
+/-- **C11_bailout_general_end_real.** `C11_bailout_general_end` — all writes succeeded, `end()` fails with `e`: the exact sink
+log (bail-out handlers once and the retained bytes flushed unmodified, or an end handler failed after everything had been
+flushed) — for the REAL controller, provided the run is not one of the internal-class alternative
+(`InternalAltRun`; e.g. `e ≠ .handler`, see `C11_bailout_general_end_real'`). -/
+theorem C11_bailout_general_end_real (cfg : Cfg) (settings : Settings) (chunks : List Bytes) (e : Err)
+    (hni : ¬ InternalAltRun cfg settings chunks)
+    (hok : ∀ x ∈ (writeAll (genWorld cfg) (Rewriter.new (genWorld cfg) (FullSt.init cfg) settings) chunks).2, x = CallRes.ok)
+    (herr : ((writeAll (genWorld cfg) (Rewriter.new (genWorld cfg) (FullSt.init cfg) settings) chunks).1.end (genWorld cfg)).2 = .err e) :
+    (C11G.BailLog (cleanWorld cfg) (writeAll (genWorld cfg) (Rewriter.new (genWorld cfg) (FullSt.init cfg) settings) chunks).1.stream
+        ((writeAll (genWorld cfg) (Rewriter.new (genWorld cfg) (FullSt.init cfg) settings) chunks).1.end (genWorld cfg)).1.stream
+        (writeAll (genWorld cfg) (Rewriter.new (genWorld cfg) (FullSt.init cfg) settings) chunks).1.stream.pending e ∨
+     C11G.EndHandlerFail (cleanWorld cfg) (writeAll (genWorld cfg) (Rewriter.new (genWorld cfg) (FullSt.init cfg) settings) chunks).1.stream
+        ((writeAll (genWorld cfg) (Rewriter.new (genWorld cfg) (FullSt.init cfg) settings) chunks).1.end (genWorld cfg)).1.stream e) ∧
+    ((writeAll (genWorld cfg) (Rewriter.new (genWorld cfg) (FullSt.init cfg) settings) chunks).1.end (genWorld cfg)).1.poisoned = true := by
+  rcases Full_real_eq_clean_run_calls cfg settings chunks with ⟨E1, E2⟩ | h
+  · have := C11G.C11_bailout_general_end (cleanWorld cfg) C15.C15_gen C15.C15_cert_gen
+      (Chunk.R.cleanCtl_clean (fullCtl cfg)) (FullSt.init cfg) settings chunks e (by rw [← E1]; exact hok)
+      (by rw [← E1, ← E2]; exact herr)
+    rw [← E1, ← E2] at this
+    exact this
+  · exact absurd h hni
+
+/-- … for every error other than the handler error (e.g. a parser error at `end`), without further hypothesis -/
+theorem C11_bailout_general_end_real' (cfg : Cfg) (settings : Settings) (chunks : List Bytes) (e : Err) (hne : e ≠ .handler)
+    (hok : ∀ x ∈ (writeAll (genWorld cfg) (Rewriter.new (genWorld cfg) (FullSt.init cfg) settings) chunks).2, x = CallRes.ok)
+    (herr : ((writeAll (genWorld cfg) (Rewriter.new (genWorld cfg) (FullSt.init cfg) settings) chunks).1.end (genWorld cfg)).2 = .err e) :
+    (C11G.BailLog (cleanWorld cfg) (writeAll (genWorld cfg) (Rewriter.new (genWorld cfg) (FullSt.init cfg) settings) chunks).1.stream
+        ((writeAll (genWorld cfg) (Rewriter.new (genWorld cfg) (FullSt.init cfg) settings) chunks).1.end (genWorld cfg)).1.stream
+        (writeAll (genWorld cfg) (Rewriter.new (genWorld cfg) (FullSt.init cfg) settings) chunks).1.stream.pending e ∨
+     C11G.EndHandlerFail (cleanWorld cfg) (writeAll (genWorld cfg) (Rewriter.new (genWorld cfg) (FullSt.init cfg) settings) chunks).1.stream
+        ((writeAll (genWorld cfg) (Rewriter.new (genWorld cfg) (FullSt.init cfg) settings) chunks).1.end (genWorld cfg)).1.stream e) ∧
+    ((writeAll (genWorld cfg) (Rewriter.new (genWorld cfg) (FullSt.init cfg) settings) chunks).1.end (genWorld cfg)).1.poisoned = true := by
+  refine C11_bailout_general_end_real cfg settings chunks e ?_ hok herr
+  rintro ⟨s, _, hm⟩
+  simp only [run, List.mem_append, List.mem_singleton] at hm
+  rcases hm with hm | hm
+  · have := hok _ hm; cases this
+  · rw [herr] at hm
+    simp only [CallRes.err.injEq] at hm
+    exact hne hm.symm
+
+/-- non-vacuity of the hypotheses `hok` / `herr`: a document-end closure of the real controller fails — both writes succeed,
+`end` returns the handler error (the `EndHandlerFail` case) -/
+def endFailCfg : Cfg := { docs := [{ end_ := some [([], true)] }] }
+
+example : (run (genWorld endFailCfg) (Rewriter.new (genWorld endFailCfg) (FullSt.init endFailCfg) {}) sampleChunks).2
+    = [.ok, .ok, .err .handler] := by decide +kernel
+
 end LolHtml.Thm.Full
